@@ -559,6 +559,7 @@ theorem step_projects_base {cfg : Cfg} {s s' : St} {op : Op} (hb : isCoins op = 
   | coins payer asset amount op => cases hb
   | xfail code op => cases hb
   | reenter trig caught hacc inner outer => cases hb
+  | inloan k amount mode vbal fees inner => cases hb
   | newEpoch now router acc =>
     right
     simp only [step] at h
@@ -1097,6 +1098,153 @@ theorem xfail_ok {cfg : Cfg} {s s' : St} {code : Nat} {op : Op} (h : step cfg s 
     · unfold failCode at h; split at h <;> cases h
     · exact h
 
+/-- a completed `inloan` transaction is the callback's operation on the state the loan was taken in, plus the
+    loan's protocol fee on the lending vault's pending ledger; the closing steps went through -/
+theorem inloan_ok {cfg : Cfg} {s s' : St} {k amount vbal : Nat} {mode : Repay} {fees : LoanFees} {inner : Op}
+    (h : step cfg s (.inloan k amount mode vbal fees inner) = .ok s') :
+    ∃ s1 o, step cfg s inner = .ok s1 ∧ loanClose s s1 k amount mode vbal fees = .ok o ∧
+      s' = accrueLoan k (loanFee fees.prot amount) s1 ∧ o.st = s' ∧
+      (s.c.vaults[k]?).isSome = true ∧ amount ≠ 0 ∧ amount ≤ vbal := by
+  simp only [step] at h
+  cases hr : inloanRun s k amount mode vbal fees (fun s0 => step cfg s0 inner) with
+  | err => rw [hr] at h; cases h
+  | panic => rw [hr] at h; cases h
+  | ok o =>
+    rw [hr] at h; simp only at h
+    injection h with h
+    unfold inloanRun at hr
+    cases hv : s.c.vaults[k]? with
+    | none => rw [hv] at hr; cases hr
+    | some v =>
+      rw [hv] at hr; simp only at hr
+      by_cases hg : amount = 0 ∨ vbal < amount
+      · rw [if_pos hg] at hr; cases hr
+      · rw [if_neg hg] at hr
+        cases hi : step cfg s inner with
+        | err => rw [hi] at hr; cases hr
+        | panic => rw [hi] at hr; cases hr
+        | ok s1 =>
+          rw [hi] at hr; simp only at hr
+          have hst : o.st = accrueLoan k (loanFee fees.prot amount) s1 := by
+            have hc := hr
+            unfold loanClose at hc
+            split at hc
+            · cases hc
+            · split at hc
+              · cases hc
+              · split at hc
+                · cases hc
+                · split at hc
+                  · cases hc
+                  · injection hc with hc; rw [← hc]
+          refine ⟨s1, o, rfl, hr, ?_, h, rfl, ?_, ?_⟩
+          · rw [← h, hst]
+          · intro h0; exact hg (Or.inl h0)
+          · exact Nat.le_of_not_lt (fun hlt => hg (Or.inr hlt))
+
+theorem accrueLoan_d (k fee : Nat) (s : St) : (accrueLoan k fee s).d = s.d := rfl
+
+/-! ### the lending vault's ledger in an `inloan` transaction -/
+
+theorem modVault_getElem? (f : Collector.Vault → Collector.Vault) :
+    ∀ (vs : List Collector.Vault) (k j : Nat),
+      (modVault k f vs)[j]? = if j = k then (vs[j]?).map f else vs[j]? := by
+  intro vs
+  induction vs with
+  | nil => intro k j; simp [modVault]
+  | cons v vs ih =>
+    intro k j
+    cases k with
+    | zero =>
+      cases j with
+      | zero => simp [modVault]
+      | succ j => simp [modVault]
+    | succ k =>
+      cases j with
+      | zero => simp [modVault]
+      | succ j =>
+        simp only [modVault, List.getElem?_cons_succ, Nat.add_right_cancel_iff]
+        exact ih k j
+
+theorem pendOf_accrueLoan (k fee : Nat) (s : St) (j : Nat) :
+    pendOf (accrueLoan k fee s) j =
+      if j = k ∧ (s.c.vaults[j]?).isSome = true then pendOf s j + fee else pendOf s j := by
+  unfold pendOf accrueLoan
+  simp only
+  rw [modVault_getElem?]
+  by_cases hj : j = k
+  · subst hj
+    simp only [if_true, true_and]
+    cases hv : s.c.vaults[j]? with
+    | none => simp
+    | some v => simp
+  · rw [if_neg hj, if_neg (fun h => hj h.1)]
+
+/-- what a completed `loanClose` says, in closed form: the three guards held and the outputs are the defining terms -/
+theorem loanClose_ok {s s1 : St} {k amount vbal : Nat} {mode : Repay} {fees : LoanFees} {o : LoanOut}
+    (h : loanClose s s1 k amount mode vbal fees = .ok o) :
+    loanPaidOut s s1 k ≤ vbal - amount ∧ loanRequired vbal amount fees ≤ U128MAX ∧
+    loanRequired vbal amount fees ≤ loanMid s s1 k amount vbal + loanRepaid s s1 k amount mode vbal fees ∧
+    o.st = accrueLoan k (loanFee fees.prot amount) s1 ∧
+    o.endBal = loanMid s s1 k amount vbal + loanRepaid s s1 k amount mode vbal fees - loanFee fees.burn amount ∧
+    o.repaid = loanRepaid s s1 k amount mode vbal fees ∧ o.paidOut = loanPaidOut s s1 k := by
+  unfold loanClose at h
+  split at h
+  · cases h
+  · rename_i h1
+    split at h
+    · cases h
+    · rename_i h2
+      split at h
+      · cases h
+      · rename_i h3
+        split at h
+        · cases h
+        · injection h with h; subst h
+          exact ⟨Nat.le_of_not_lt h1, Nat.le_of_not_lt h2, Nat.le_of_not_lt h3, rfl, rfl, rfl, rfl⟩
+
+/-- a completed `inloanRun`: the vault exists, the loan could be sent, the callback's operation went through, and the
+    closing steps did -/
+theorem inloanRun_ok {s : St} {k amount vbal : Nat} {mode : Repay} {fees : LoanFees} {inner : St → Res St} {o : LoanOut}
+    (h : inloanRun s k amount mode vbal fees inner = .ok o) :
+    ∃ s1, inner s = .ok s1 ∧ loanClose s s1 k amount mode vbal fees = .ok o ∧
+      (s.c.vaults[k]?).isSome = true ∧ amount ≠ 0 ∧ amount ≤ vbal := by
+  unfold inloanRun at h
+  cases hv : s.c.vaults[k]? with
+  | none => rw [hv] at h; cases h
+  | some v =>
+    rw [hv] at h; simp only at h
+    by_cases hg : amount = 0 ∨ vbal < amount
+    · rw [if_pos hg] at h; cases h
+    · rw [if_neg hg] at h
+      cases hi : inner s with
+      | err => rw [hi] at h; cases h
+      | panic => rw [hi] at h; cases h
+      | ok s1 =>
+        rw [hi] at h; simp only at h
+        exact ⟨s1, rfl, h, rfl, fun h0 => hg (Or.inl h0), Nat.le_of_not_lt (fun hlt => hg (Or.inr hlt))⟩
+
+/-- the arithmetic of the repayment (plain numbers): with `paid ≤ vbal - amount`, `1 ≤ amount ≤ vbal` and the balance
+    check passed, the mode is not `short`, the vault ends with `vbal + prot + flash + extra` and the borrower sent
+    `amount + prot + flash + burn + paid + extra` -/
+theorem repay_arith {vbal amount paid pf ff bf : Nat} {mode : Repay}
+    (h1 : paid ≤ vbal - amount) (ha : amount ≠ 0) (hle : amount ≤ vbal)
+    (h3 : vbal + pf + ff + bf ≤ vbal - amount - paid + repayOf mode (vbal + pf + ff + bf - (vbal - amount - paid))) :
+    mode ≠ .short ∧
+    ∃ extra, (mode = .exact → extra = 0) ∧ (∀ x, mode = .over x → extra = x) ∧
+      vbal - amount - paid + repayOf mode (vbal + pf + ff + bf - (vbal - amount - paid)) - bf = vbal + pf + ff + extra ∧
+      repayOf mode (vbal + pf + ff + bf - (vbal - amount - paid)) = amount + pf + ff + bf + paid + extra := by
+  cases mode with
+  | exact =>
+    simp only [repayOf] at h3 ⊢
+    refine ⟨(fun h => by cases h), 0, (fun _ => rfl), (fun x h => by cases h), ?_, ?_⟩ <;> omega
+  | over x =>
+    simp only [repayOf] at h3 ⊢
+    refine ⟨(fun h => by cases h), x, (fun h => by cases h), (fun y h => by injection h with h), ?_, ?_⟩ <;> omega
+  | short =>
+    simp only [repayOf] at h3
+    exfalso; omega
+
 /-- the hooked run of an operation WITHOUT a `NewEpoch` keeps what the nested message and gifts keep -/
 theorem stepH_pres_noEpoch {cfg : Cfg} {hk : Hook} {Q : Distributor.St → Option (Nat × Nat) → Nat → Prop} (hf : FirePres hk Q)
     (hg : ∀ d a x, Q d none 0 → Q (Distributor.gift d a x) none 0) :
@@ -1132,6 +1280,7 @@ theorem stepH_pres_noEpoch {cfg : Cfg} {hk : Hook} {Q : Distributor.St → Optio
     · rename_i hne
       exact absurd e (fun e' => hne h e')
   | reenter trig caught hacc inner outer _ _ => intro s h _ e; simp [stepH] at e
+  | inloan k amount mode vbal fees inner _ => intro s h _ e; simp [stepH] at e
   | claim u ans => intro s h _ e; simp [stepH] at e
   | bond u res view => intro s h _ e; simp [stepH] at e
   | grace sender g => intro s h _ e; simp [stepH] at e
@@ -1206,6 +1355,12 @@ theorem step_sameCur {cfg : Cfg} : ∀ {op : Op} {s s' : St}, step cfg s op = .o
         refine stepH_pres_noEpoch (Q := fun d _ _ => SameCur s.d d) ?_ ?_ outer s hh hn.2 hH (SameCur.refl _)
         · exact fire_pres_of_run (fun s1 s2 _ _ hr hq => SameCur.trans hq (ihi hr hn.1)) (fun _ _ _ hq => hq)
         · intro d a x hq; exact SameCur.trans hq (SameCur.of_epochs rfl)
+  | inloan k amount mode vbal fees inner ih =>
+    intro s s' h hn
+    simp only [hasNewEpoch] at hn
+    obtain ⟨s1, _, hi, _, hs', _⟩ := inloan_ok h
+    have h1 := ih hi hn
+    rw [hs', accrueLoan_d]; exact h1
   | _ =>
     intro s s' h hn
     cases step_projects_base rfl h with
@@ -1289,6 +1444,7 @@ theorem stepH_DR {cfg : Cfg} {hk : Hook}
     · rename_i hne
       exact absurd e (fun e' => hne h e')
   | reenter trig caught hacc inner outer _ _ => intro s h e; simp [stepH] at e
+  | inloan k amount mode vbal fees inner _ => intro s h e; simp [stepH] at e
   | claim u ans => intro s h e; simp [stepH] at e
   | bond u res view => intro s h e; simp [stepH] at e
   | grace sender g => intro s h e; simp [stepH] at e
@@ -1338,6 +1494,11 @@ theorem step_projects {cfg : Cfg} : ∀ {op : Op} {s s' : St}, step cfg s op = .
         simp only at h
         injection h with h; subst h
         exact stepH_DR (fun s1 s2 hr => ihi hr) (fun hc s1 s2 hr => step_sameCur hr hc) outer s hh hH
+  | inloan k amount mode vbal fees inner ih =>
+    intro s s' h
+    obtain ⟨s1, _, hi, _, hs', _⟩ := inloan_ok h
+    obtain ⟨dops, hd⟩ := ih hi
+    exact ⟨dops, by rw [hs', accrueLoan_d]; exact hd⟩
   | _ =>
     intro s s' h
     cases step_projects_base rfl h with
